@@ -124,13 +124,13 @@ SPEC = {
         "resolve_perm", "resolve_perm_normalized", "selected_is_viable", "selected_not_dominated", "selected_not_dominated_componentwise",
         "finals_are_the_exact_matches", "unique_exact_selected", "twin_exact_ambiguous",
         # the conversion model and the property as worded on its own quantifier
-        "find_total", "findRank_total_off_matrix", "resolve_no_panic", "exact_rank_iff_same_type_on_grid",
+        "find_total", "findRank_total_off_matrix", "findRank_total", "resolve_no_panic", "exact_rank_iff_same_type_on_grid",
         "exact_type_match_selected_on_grid", "exact_type_twins_ambiguous_on_grid",
         # the model with get_rank evaluated lazily, loop by loop as in the source, computes the same outcome
         "resolveLazy_eq_resolve", "resolveLazy_perm",
         # recorded readings / witnesses (decide on concrete inputs, replayed on the real code by corpus/C16.txt)
         "in_out_twin_is_ambiguous", "default_twin_is_ambiguous", "vec1_twin_is_ambiguous",
-        "tournament_without_winner", "scalar_to_matrix_panics"]],
+        "tournament_without_winner", "scalar_to_matrix_selected"]],
     "harness": "c16",
     "nontrivial": nontrivial,
     "finding_key": finding_key,
